@@ -91,7 +91,10 @@ func (d *PathDecoder) SignatureAtPos(filename string, pos hcl.Pos) (*lang.Functi
 		}
 
 		if activePar >= paramsLen && f.VarParam == nil {
-			return nil // too many arguments passed to the function
+			// too many arguments passed to the function; the signature
+			// of an enclosing call does not describe this position either
+			signature = nil
+			return nil
 		}
 
 		if activePar >= paramsLen {
